@@ -195,10 +195,16 @@ type c44World struct {
 	holder    map[netip.Addr]string          // overlay address -> JSON of the certificate of the tunnel now holding it
 	peerAddrs []netip.Addr
 	neverSeen []string // names of certificates that never completed a handshake
+	pki       *PKI
+	cfg       *config.C
+	peerNames map[string]bool // lower-case fqdn of every peer that completed a handshake
+	former    []string        // names this node's certificate carried before a renewal
+	fuzzy     map[string]bool // former own names that a peer shares: the responder drops the shared entry, nothing is asserted about known-ness
+	running   bool
 }
 
 func c44Build(rt *rapid.T) *c44World {
-	w := &c44World{known: map[string]bool{}, zone: map[string]map[netip.Addr]bool{}, holder: map[netip.Addr]string{}}
+	w := &c44World{known: map[string]bool{}, zone: map[string]map[netip.Addr]bool{}, holder: map[netip.Addr]string{}, peerNames: map[string]bool{}, fuzzy: map[string]bool{}}
 	l := slog.New(slog.NewTextHandler(io.Discard, nil))
 	w.enabled = rapid.IntRange(0, 9).Draw(rt, "enabled") != 0
 	w.ownName = c44GenName(rt, "own")
@@ -224,7 +230,7 @@ func c44Build(rt *rapid.T) *c44World {
 	if err != nil {
 		rt.Fatalf("harness: newDnsServerFromConfig: %v", err)
 	}
-	w.ds = ds
+	w.ds, w.pki, w.cfg = ds, pki, c
 	f := &Interface{dnsServer: ds, hostMap: hm, l: l}
 
 	add := func(name string, addrs []netip.Addr) {
@@ -278,6 +284,7 @@ func c44Build(rt *rapid.T) *c44World {
 		hm.unlockedAddHostInfo(hi, f)
 		hm.Unlock()
 		add(name, addrs)
+		w.peerNames[strings.ToLower(name)+"."] = true
 		for _, a := range addrs {
 			uses[a]++
 			w.holder[a] = js
@@ -285,6 +292,73 @@ func c44Build(rt *rapid.T) *c44World {
 		}
 	}
 	return w
+}
+
+// renew replaces the node's certificate by one with another name and the same networks (which a PKI
+// reload accepts) and reloads the configuration, as a SIGHUP after a certificate renewal does. The
+// listener is brought up first (on an ephemeral loopback port) so that the reload is the
+// "running, same address" path and starts nothing itself.
+func (w *c44World) renew(rt *rapid.T) {
+	if w.enabled && !w.running {
+		go w.ds.Start()
+		for i := 0; ; i++ {
+			w.ds.serverMu.Lock()
+			up := w.ds.server != nil
+			w.ds.serverMu.Unlock()
+			if up {
+				break
+			}
+			if i > 5000 {
+				rt.Fatalf("harness: the DNS listener did not come up")
+			}
+			time.Sleep(time.Millisecond)
+		}
+		w.running = true
+	}
+	newName := c44GenName(rt, "renew")
+	switch rapid.IntRange(0, 5).Draw(rt, "renew.kind") {
+	case 0:
+		newName = c44FlipCase(rt, w.ownName) // same name for DNS purposes
+	case 1:
+		if len(w.former) > 0 {
+			newName = rapid.SampledFrom(w.former).Draw(rt, "renew.back") // back to an earlier name
+		}
+	}
+	nc, js := c44MakeCert(newName, w.ownAddrs)
+	w.pki.cs.Store(c44CertState(nc))
+	if err := w.ds.reload(w.cfg, false); err != nil {
+		rt.Fatalf("harness: dns reload: %v", err)
+	}
+	oldK, newK := strings.ToLower(w.ownName)+".", strings.ToLower(newName)+"."
+	if w.enabled && oldK != newK {
+		if w.peerNames[oldK] {
+			w.fuzzy[oldK] = true
+		} else {
+			delete(w.known, oldK)
+		}
+		for _, a := range w.ownAddrs {
+			delete(w.zone[oldK], a)
+		}
+		w.former = append(w.former, w.ownName)
+	}
+	if w.enabled {
+		delete(w.fuzzy, newK)
+		w.known[newK] = true
+		if w.zone[newK] == nil {
+			w.zone[newK] = map[netip.Addr]bool{}
+		}
+		for _, a := range w.ownAddrs {
+			w.zone[newK][a] = true
+		}
+	}
+	w.ownName, w.ownJSON = newName, js
+}
+
+func (w *c44World) stop() {
+	if w.running {
+		w.ds.Stop()
+		w.running = false
+	}
 }
 
 var c44OtherTypes = []uint16{dns.TypeMX, dns.TypeANY, dns.TypeCNAME, dns.TypeSRV, dns.TypePTR, dns.TypeNS, dns.TypeSOA, dns.TypeHTTPS, 65280}
@@ -309,6 +383,9 @@ func (w *c44World) genQuestion(rt *rapid.T) c44Q {
 		q.Type = rapid.SampledFrom(c44OtherTypes).Draw(rt, "q.other")
 	}
 	kinds := []string{"known", "known", "known", "unknown", "neverseen"}
+	if len(w.former) > 0 {
+		kinds = append(kinds, "former-own", "former-own", "former-own")
+	}
 	if q.Type == dns.TypeTXT {
 		kinds = []string{"known", "ip-own", "ip-peer", "ip-peer", "ip-unknown", "junk", "unknown"}
 	} else if rapid.IntRange(0, 9).Draw(rt, "q.ipname") == 0 {
@@ -325,6 +402,8 @@ func (w *c44World) genQuestion(rt *rapid.T) c44Q {
 		// deterministic order: no dependence on map iteration
 		sortStrings(names)
 		q.Name = c44FlipCase(rt, rapid.SampledFrom(names).Draw(rt, "q.known")) + "."
+	case "former-own":
+		q.Name = c44FlipCase(rt, rapid.SampledFrom(w.former).Draw(rt, "q.former")) + "."
 	case "neverseen":
 		if len(w.neverSeen) > 0 {
 			q.Name = c44FlipCase(rt, rapid.SampledFrom(w.neverSeen).Draw(rt, "q.never")) + "."
@@ -418,8 +497,14 @@ func c44Ask(rt *rapid.T, ds *dnsServer, req *dns.Msg, client net.Addr) *dns.Msg 
 func TestC44_Responder(t *testing.T) {
 	vk.Check(t, 12000, func(rt *rapid.T) {
 		w := c44Build(rt)
+		defer w.stop()
+		renews := rapid.IntRange(0, 3).Draw(rt, "renewing") == 0
 		nmsg := rapid.IntRange(1, 8).Draw(rt, "nmsgs")
 		for mi := 0; mi < nmsg; mi++ {
+			if renews && rapid.IntRange(0, 2).Draw(rt, "renewNow") == 0 {
+				w.renew(rt)
+				vk.Label("C44", "own-certificate-renewed-under-another-name")
+			}
 			c44OneMessage(rt, w)
 		}
 	})
@@ -550,7 +635,13 @@ func c44OneMessage(rt *rapid.T, w *c44World) {
 	}
 
 	// NXDOMAIN only for unknown names / NODATA for a known name lacking the type
-	if anyKnown && resp.Rcode != dns.RcodeSuccess {
+	fuzzyAsked := false
+	for _, q := range eff {
+		if w.fuzzy[strings.ToLower(q.Name)] {
+			fuzzyAsked = true
+		}
+	}
+	if anyKnown && !fuzzyAsked && resp.Rcode != dns.RcodeSuccess {
 		rt.Fatalf("message naming a known name answered with rcode %s (answers %d); %s", dns.RcodeToString[resp.Rcode], len(resp.Answer), desc)
 	}
 
